@@ -6,11 +6,14 @@ import session_common as SC
 
 def tasks(tier, seed):
     ts = SCH.sched_tasks(tier, [], 'race', None, {'race', 'memory', 'uncaught_exception', 'terminate', 'deadlock', 'leak'},
-                         race=True)
+                         race=True, in_cs=True)
+    # early close while the workers are busy (abort paths)
+    ts += SCH.sched_tasks(tier, [], 'race_close', None, {'race', 'memory', 'uncaught_exception', 'terminate', 'deadlock', 'hang', 'leak'},
+                          race=True, in_cs=True, extra_defs='#undef EARLY_CLOSE_AFTER\n#define EARLY_CLOSE_AFTER 1\n', nobj=3)
     meta = dict(
         level='model_checking',
         explanation='The whole write and read pipeline of the real File runs in llsym with three cooperative threads per session; '
-                    'every schedule with at most one preemption at a mutex release or thread start is explored (complete for '
+                    'every schedule with at most one preemption at a mutex acquisition (inside the critical section), mutex release or thread start is explored (complete for '
                     'bound 1 on these sessions). (a) Hand-over: the harness consumer deletes each object immediately after '
                     'read(); any later access by a worker is a use-after-free in llsym\'s lifetime-checked memory, objects '
                     'passed to write() must be freed exactly once. (b) A vector-clock happens-before detector (mutexes, thread '
